@@ -1,6 +1,6 @@
 SPECIFICATION Spec
 CONSTANTS
-  ConfigTable <- TableGeneral
+  Configs <- ConfigsGeneral
   ReqAt <- AtWide
   General = {"K1", "K2", "K2n", "K3", "K4", "K5", "K5b", "K6", "K6b", "K7", "K7b", "K8"}
   MaxAttempts = 128
